@@ -689,7 +689,7 @@ pub fn serve_line(q: &HReq, e: &HEntity, now: u64) -> String {
 /// Calls the real `serve` and returns the response with its body (no draining).
 // ---- call histories: what was served before must not matter
 //
-// Every 4th `serve` / `streaming_body` call a suite makes is preceded, on the same thread, by one of
+// About every 4th `serve` / `streaming_body` call a suite makes is preceded, on the same thread, by one of
 // a few unrelated calls (another entity's multipart, conditional and error responses, drained or
 // dropped; streaming bodies negotiated for other header values). A correct crate keeps no state
 // between calls, so this changes nothing; state that leaks (a cache, a recycled buffer or header
@@ -705,11 +705,17 @@ pub fn last_history() -> String {
 /// Called by the harness before each call into the crate on behalf of a case.
 pub fn history_noise() {
     let t = HISTORY_TICK.fetch_add(1, Ordering::Relaxed);
-    if t % 4 != 3 {
+    // pseudo-random in the call number (not periodic, so that it cannot fall into step with a
+    // suite that makes a fixed number of calls per case), deterministic across runs
+    let mut z = t.wrapping_add(0x9E3779B97F4A7C15);
+    z = (z ^ (z >> 30)).wrapping_mul(0xBF58476D1CE4E5B9);
+    z = (z ^ (z >> 27)).wrapping_mul(0x94D049BB133111EB);
+    z ^= z >> 31;
+    if z % 4 != 0 {
         LAST_HISTORY.lock().unwrap().clear();
         return;
     }
-    let k = (t / 4) % 13;
+    let k = (z >> 8) % 13;
     let mut e = HEntity::new(1000);
     e.etag = Some(b"\"other-entity\"".to_vec());
     e.mtime = Some(UNIX_EPOCH + Duration::new(1_000_000_000, 123));
